@@ -7,7 +7,7 @@ from . import common, u_qstr
 
 NAME = "U-int"
 TOOL = "verus"
-PROPS = ["C10", "C16"]
+PROPS = ["C10", "C16", "C09"]
 RLIMIT = 100
 TRUSTED = ["verus 0.2026.09.13 + z3", "A-std-parse: str::parse::<i32> and i32::from_str_radix accept an optional single sign followed by at least one digit of the radix and "
            "return the value when it fits i32, an error otherwise (Rust std documentation)", "R6 shims of pest Pair / Pairs", "compile_quoted_string_ex contract as proved in U-qstr (stub)",
@@ -60,6 +60,21 @@ pub fn i32_from_str_radix(s: &str, radix: u32) -> (r: Result<i32, ParseIntError>
     requires 2 <= radix <= 36,
     ensures radix <= 16 ==> match std_int(s@, radix as int) { Some(v) => r is Ok && r->Ok_0 == v, None => r is Err }
 { unimplemented!() }
+// u32::from_str_radix: an optional `+`, digits of the radix, a value below 2^32 (no `-` for a non-zero value: simplified to "no sign but +")
+pub open spec fn std_uint(s: Seq<char>, radix: int) -> Option<int> {
+    let d = if s.len() > 0 && s[0] == '+' { s.skip(1) } else { s };
+    if d.len() == 0 || !all_digits(d, radix) { None } else { let v = digits_value(d, radix); if 0 <= v <= 0xffff_ffff { Some(v) } else { None } }
+}
+#[verifier::external_body]
+pub fn u32_from_str_radix(s: &str, radix: u32) -> (r: Result<u32, ParseIntError>)
+    requires 2 <= radix <= 36,
+    ensures radix <= 16 ==> match std_uint(s@, radix as int) { Some(v) => r is Ok && r->Ok_0 == v, None => r is Err }
+{ unimplemented!() }
+// Result::map(|v| v as i32): the cast wraps
+#[verifier::external_body]
+pub fn res_u32_as_i32(r: Result<u32, ParseIntError>) -> (o: Result<i32, ParseIntError>)
+    ensures r is Err ==> o is Err, r is Ok ==> o is Ok && o->Ok_0 == (if r->Ok_0 < 0x8000_0000 { r->Ok_0 as int } else { r->Ok_0 as int - 0x1_0000_0000 })
+{ match r { Ok(v) => Ok(v as i32), Err(e) => Err(e) } }
 // R21: &s[n..] on an ASCII string
 #[verifier::external_body]
 pub fn str_from(s: &str, n: usize) -> (r: &str)
@@ -164,6 +179,7 @@ def build(repo):
     f = comp.fn("parse_int")
     cuts = [f]
     f.sub(r"(\w+)\.as_str\(\)\.parse::<i32>\(\)", r"str_parse_i32(\1.as_str())", "R20 str::parse::<i32>() -> shim with the assumed std contract", expect=(0, 2))
+    f.sub(r"u32::from_str_radix\(((?:[^()]|\([^()]*\))*)\)\.map\(\|v\| v as i32\)", r"res_u32_as_i32(u32_from_str_radix(\1))", "R20 u32::from_str_radix(..).map(|v| v as i32) -> shims (assumed std contract; `as` wraps)", expect=(0, 2))
     f.sub(r"i32::from_str_radix\(", "i32_from_str_radix(", "R20 i32::from_str_radix -> shim with the assumed std contract", expect=(0, 4))
     f.sub(r"&\s*(\w+)\.as_str\(\)\[(\w+)\.\.\]", r"str_from(\1.as_str(), \2)", "R21 &s[n..] -> str_from(s, n)", expect=(0, 2))
     f.sub(r"Pair<Rule>", "Pair", "R6 shim type")
@@ -177,12 +193,12 @@ def build(repo):
     ret = sig.group(2).strip()
     params = sig.group(1).strip()
     if ret == "Result<i32, Error>":
-        post = """            grammar_ok(p) ==> match literal_value(p) { Some(v) => if fits(v) { res is Ok && res->Ok_0 == v } else { res is Err }, None => res is Err }, //@ C10:int-literal-value
+        post = """            grammar_ok(p) ==> match literal_value(p) { Some(v) => if fits(v) { res is Ok && res->Ok_0 == v } else { res is Err }, None => res is Err }, //@ C10,C09:int-literal-value
 """
         resdecl = "(res: Result<i32, Error>)"
     elif ret == "i32":
         # the shape before the repair: a plain value; a literal that does not fit can then only panic, which the implicit obligations report
-        post = """            grammar_ok(p) ==> match literal_value(p) { Some(v) => fits(v) && res == v, None => false }, //@ C10:int-literal-value
+        post = """            grammar_ok(p) ==> match literal_value(p) { Some(v) => fits(v) && res == v, None => false }, //@ C10,C09:int-literal-value
 """
         resdecl = "(res: i32)"
     else:
